@@ -367,6 +367,14 @@ func (r *Run) Fanout(items []string, opts FanoutOpts, work func(item string, sub
 		}
 		os.Exit(0)
 	}
+	if f := os.Getenv("VERIF_DUMP_ITEMS"); f != "" {
+		os.WriteFile(f, []byte(strings.Join(items, "\n")+"\n"), 0o644)
+		os.Exit(0)
+	}
+	if opts.ItemTimeout == 0 {
+		// a worker that never answers is a machinery error, not a reason to hang the check
+		opts.ItemTimeout = 10 * time.Minute
+	}
 	n := opts.Workers
 	if n <= 0 {
 		n = runtime.NumCPU()
